@@ -202,7 +202,7 @@ class State:
 # the interpreter
 # =====================================================================================================
 class Interp:
-    def __init__(self, world, sources: Sources, contracts, models=None, budget_ms=3000):
+    def __init__(self, world, sources: Sources, contracts, models=None, budget_ms=1000):
         self.w = world
         self.src = sources
         self.contracts = contracts          # ContractDB
